@@ -126,16 +126,16 @@ Lemma prefix_suffix_shape_spec p pre suf :
   exists st, p = pre ++ st ++ suf /\ has_meta pre = false /\ has_meta suf = false.
 Proof.
   unfold prefix_suffix_shape. cbv zeta. destruct (take_lits_split p) as (rest & E & Hm & _).
-  set (pre0 := take_lits p) in *.
-  assert (Es : skipn (length pre0) p = rest) by (rewrite E; apply skipn_length_app).
-  rewrite Es. destruct pre0 as [|x pre0'] eqn:Ep; [discriminate|].
+  destruct (take_lits p) as [|x pre0] eqn:Ep; [discriminate|].
+  replace (skipn (length (x :: pre0)) p) with rest
+    by (rewrite E at 1; symmetry; apply skipn_length_app).
   destruct rest as [|c rest']; [discriminate|].
   destruct (c =? ch_star); [|discriminate].
   destruct (drop_stars_split rest') as [st Est].
   destruct (drop_stars rest') as [|y suf'] eqn:Ed; [discriminate|].
   destruct (has_meta (y :: suf')) eqn:Hs; [discriminate|].
   intros [= <- <-]. exists (c :: st). split; [|split; [exact Hm | exact Hs]].
-  rewrite E. f_equal. cbn [app]. f_equal. exact Est.
+  rewrite E at 1. f_equal. cbn [app]. f_equal. exact Est.
 Qed.
 
 Theorem glob_implies_gobwas p s : glob_match p s = true -> gobwas_match p s = true.
